@@ -467,8 +467,29 @@ def check_sq(run, pkg):
             E = v[2][2][0]
             okmod = True
             real = True
-        run.ob("R-ALG", fq, f"{kind}:modulus", True if (okmod and real) else None, "S = Re(F conj F) = |F|^2 of one Fourier sum F", show(ev.data["value"])[:100],
-               witness=None if okmod and real else "not the squared modulus of the Fourier sum", loc=loc)
+        verdict_mod = True if (okmod and real) else None
+        wit_mod = None if okmod and real else "not the squared modulus of the Fourier sum"
+        if verdict_mod is None and v[0] == "bin" and v[1] == "+":
+            # C**2 + S**2 of the cosine and sine sums: the squared modulus only when both sums are real, i.e. when the per-particle
+            # weights are; plain squares of sums weighted by a complex quantity are not a modulus
+            def sq_arg(t):
+                if t[0] == "call" and t[1] == "numpy.square" and len(t[2]) == 1:
+                    return t[2][0]
+                if t[0] == "bin" and t[1] == "**" and t[3] in (C(2), C(2.0)):
+                    return t[2]
+                return None
+            A_, B_ = sq_arg(v[2]), sq_arg(v[3])
+            if A_ is not None and B_ is not None:
+                trig = lambda t, f: any(x[0] == "call" and x[1] == f for x in walk(t))      # noqa: E731
+                if (trig(A_, "numpy.cos") and trig(B_, "numpy.sin")) or (trig(A_, "numpy.sin") and trig(B_, "numpy.cos")):
+                    weighted = any(x == COND for x in walk(A_)) or any(x == COND for x in walk(B_))
+                    absd = any(x[0] == "call" and x[1] in ("numpy.abs", "numpy.absolute", "builtins.abs") for x in walk(v))
+                    if kind != "bool" and weighted and not absd:
+                        verdict_mod = False
+                        wit_mod = ("a complex per-particle quantity: one particle at the origin with A = 1j gives cosine sum 1j and sine sum 0, C**2 + S**2 = -1, "
+                                   "while |sum A exp(-i q.r)|**2 = 1 (plain squares of complex sums are not a squared modulus)")
+        run.ob("R-ALG", fq, f"{kind}:modulus", verdict_mod, "S = Re(F conj F) = |F|^2 of one Fourier sum F", show(ev.data["value"])[:100],
+               witness=wit_mod, loc=loc, sound=True)
         if E is None:
             continue
         # F = SUM / sqrt(Nsel)
